@@ -104,12 +104,38 @@ func integ(rep *vh.Report) {
 					switch grng.Intn(3) {
 					case 0: // blocking command through the pool, with a deadline that may end while waiting for a connection
 						d := time.Duration(20+grng.Intn(120)) * time.Millisecond
-						ctx, cancel := context.WithTimeout(context.Background(), d)
+						key := fmt.Sprintf("q%d.%d", g, k)
+						pre := grng.Intn(2) == 0
+						tmo := 0.05
+						if pre { // the list already has an element: the reply must be exactly [key, value-of-that-key], and soon
+							srv.Do("RPUSH", key, "v:"+key)
+							d = 4 * time.Second
+						} else if grng.Intn(3) == 0 {
+							tmo = 0 // block for ever: only closing the connection gets it back when the caller gives up
+						}
+						var ctx context.Context
+						var cancel context.CancelFunc
+						if grng.Intn(2) == 0 {
+							ctx, cancel = context.WithTimeout(context.Background(), d)
+						} else { // manual cancellation: no deadline on the socket, the call is abandoned while its reply is pending
+							ctx, cancel = context.WithCancel(context.Background())
+							tm := time.AfterFunc(d, cancel)
+							defer tm.Stop()
+						}
 						t0 := time.Now()
-						client.Do(ctx, client.B().Blpop().Key(fmt.Sprintf("q%d", g)).Timeout(0.05).Build())
+						res := client.Do(ctx, client.B().Blpop().Key(key).Timeout(tmo).Build())
 						if el := time.Since(t0); el > d+2*time.Second {
 							late.Add(1)
 							rep.Violate("pool-integ-deadline-ignored", fmt.Sprintf("blocking call with a %v deadline returned after %v (pool size %d)", d, el, capN), nil)
+						}
+						if arr, err := res.AsStrSlice(); err == nil {
+							if len(arr) != 2 || arr[0] != key || arr[1] != "v:"+key {
+								rep.Violate("pool-integ-misrouted-reply", fmt.Sprintf("BLPOP %s returned %v: a connection was reused while another caller's reply was still pending on it", key, arr), nil)
+							}
+						} else if pre && rueidis.IsRedisNil(err) {
+							rep.Violate("pool-integ-misrouted-reply", fmt.Sprintf("BLPOP %s returned nil although the list had an element", key), nil)
+						} else if pre {
+							rep.Violate("pool-integ-connection-not-recovered", fmt.Sprintf("BLPOP %s on a list that has an element failed with %v after %v: the pool handed out a connection on which an abandoned blocking command is still pending", key, err, time.Since(t0)), nil)
 						}
 						cancel()
 					case 1: // dedicated session: WATCH/MULTI/EXEC with tagged keys
@@ -142,9 +168,9 @@ func integ(rep *vh.Report) {
 			rep.Violate("pool-integ-bound", fmt.Sprintf("the client had %d connections open at once with BlockingPoolSize %d (+1 pipelining connection)", m, capN), events)
 		}
 		client.Close()
-		before := srv.Conns()
-		if err := client.Do(context.Background(), client.B().Blpop().Key("x").Timeout(1).Build()).Error(); err == nil || len(srv.Conns()) != len(before) {
-			rep.Violate("pool-integ-after-close", fmt.Sprintf("blocking call after Close: err=%v, connections %d -> %d (must fail on a closed connection without dialing)", err, len(before), len(srv.Conns())), nil)
+		before := len(fnet.Dials())
+		if err := client.Do(context.Background(), client.B().Blpop().Key("x").Timeout(1).Build()).Error(); err == nil || len(fnet.Dials()) != before {
+			rep.Violate("pool-integ-after-close", fmt.Sprintf("blocking call after Close: err=%v, dials %d -> %d (must fail on a closed connection without dialing)", err, before, len(fnet.Dials())), nil)
 		}
 		time.Sleep(20 * time.Millisecond)
 		if n := open.Load(); n != 0 {
